@@ -113,7 +113,7 @@ class LoaderEngine(VectorEngine):
         # the thorough enumerations (3 files x 3-4 statements x every spelling / fault position) have several hundred
         # thousand graphs; each is executed and its trace validated (about 2 minutes per 2500), so a seeded sample of
         # CAP graphs per configuration is taken - said in the evidence notes
-        CAP = 30000
+        CAP = 10000
         if len(vecs) > CAP and "." not in tag.replace(".cfg", ""):
             ctx.notes.append(f"{tag}: {len(vecs)} graphs enumerated by TLC, a seeded sample of {CAP} executed")
             vecs = ctx.rng.sample(vecs, CAP)
@@ -179,7 +179,7 @@ class LoaderEngine(VectorEngine):
                                                spec_operator=self.spec_op, raw={k: r.get(k) for k in ("status", "kind", "err", "stack_overflow")},
                                                predictions=pred.get(pk)))
 
-    trace_runs = {"quick": 1200, "thorough": 20000}
+    trace_runs = {"quick": 1200, "thorough": 4000}
 
     def validate_runs(self, ctx, runs, lookup, tag):
         def on_reject(cid, j):
